@@ -14,7 +14,7 @@ R: dlv dataconv renders each value as JSON / JSON5 / YAML / TOML (/ txt) TEXT fr
 V: TLC (spec/trace/DataTrace.tla) runs every emitted program with the TLA+ semantics and judges
    DataConv!LuaEq(returned value, datum) on the final heap; an emitted text the independent parser rejects, a
    conversion error, a panic or a refused valid document is a violation as well."""
-import json, os, random
+import json, os, random, struct
 import vlib
 from vlib import Report, tlc, tlc_ok, dlv, write_ndjson, read_ndjson, log
 
@@ -202,10 +202,26 @@ def run(tier):
     rnd = random_docs(leaves, keys, nrand, rng)
     for k, c in enumerate(rnd):
         c["id"] = "r%d" % k
+    # decimals with 17+ significant digits (where a decimal -> binary conversion that is not correctly rounded shows): seeded
+    # random doubles in their shortest form, with 17 digits and with 21 digits; the expected double is Python's float(text)
+    precise = []
+    for k in range(40 if tier == "quick" else 400):
+        nums = []
+        for _ in range(10):
+            x = struct.unpack("<d", struct.pack("<Q", rng.getrandbits(64)))[0]
+            if x != x or x in (float("inf"), float("-inf")) or abs(x) > 1e300 or (x != 0 and abs(x) < 1e-300):
+                x = rng.uniform(-1e6, 1e6)
+            tx = rng.choice([repr(x), "%.17g" % x, "%.20e" % x, repr(rng.uniform(-1e12, 1e12)), "%.16f" % rng.uniform(0, 1e5)])
+            if tx[0] == "-" and rng.random() < 0.5:
+                tx = tx[1:]
+            bits = struct.unpack("<Q", struct.pack("<d", float(tx)))[0]
+            sgn = lambda w: w - (1 << 32) if w >= (1 << 31) else w
+            nums.append({"k": "num", "b": 0, "hi": sgn(bits >> 32), "lo": sgn(bits & 0xffffffff), "tx": tx, "s": [], "ks": [], "l": []})
+        precise.append({"id": "n%d" % k, "fam": "precise", "d": {"k": "obj", "b": 0, "hi": 0, "lo": 0, "tx": "", "s": [], "ks": [list(b"n")], "l": [{"k": "arr", "b": 0, "hi": 0, "lo": 0, "tx": "", "s": [], "ks": [], "l": nums}]}})
     pinned = []
     for r in vlib.pinned_reproducers(PID):
         pinned.append({"id": r["id"], "fam": "pinned", "d": r["d"]})
-    allc = cases + rnd + pinned
+    allc = cases + rnd + precise + pinned
     res = observe_and_judge(rep, allc, "main", corrupt=os.environ.get("C14_CORRUPT"))
     c = res["counts"]
     if res["programs"] < 4 * len(allc) or c.get("ok", 0) + res["disagreements"] != res["programs"]:
